@@ -233,6 +233,66 @@ def qnmatch (name pat : List Char) : MatchRes :=
   | none => .indexError
   | some as => if compiles as then .ok (matchA as name) else .reError
 
+/-! ### `_compile_pattern` and its `functools.lru_cache(maxsize=256, typed=True)` -/
+
+inductive CompRes where
+  /-- `re.compile(translate(pat)).match` -/
+  | ok (as : List Atom)
+  | reError
+  | indexError
+  deriving DecidableEq, Repr
+
+/-- `_compile_pattern.__wrapped__(pat)` -/
+def compilePattern (pat : List Char) : CompRes :=
+  match translate pat with
+  | none => .indexError
+  | some as => if compiles as then .ok as else .reError
+
+/-- state of the `lru_cache`: entries most recently used first, and the two counters of
+`cache_info()`.  An exception of the wrapped function is not stored, but the call was counted as a
+miss before the function ran (C implementation of `functools`). -/
+structure Lru where
+  entries : List (List Char × List Atom)
+  hits : Nat
+  misses : Nat
+  deriving Repr
+
+def Lru.empty : Lru := ⟨[], 0, 0⟩
+
+def lruFind : List (List Char × List Atom) → List Char → Option (List Atom)
+  | [], _ => none
+  | (k, v) :: es, p => if k = p then some v else lruFind es p
+
+def lruErase : List (List Char × List Atom) → List Char → List (List Char × List Atom)
+  | [], _ => []
+  | (k, v) :: es, p => if k = p then es else (k, v) :: lruErase es p
+
+/-- `_compile_pattern(pat)`: a hit moves the entry to the front; a miss computes, stores at the front
+and, when more than `maxsize` entries are held, drops the least recently used one -/
+def lruCall (maxsize : Nat) (c : Lru) (pat : List Char) : CompRes × Lru :=
+  match lruFind c.entries pat with
+  | some as => (.ok as, ⟨(pat, as) :: lruErase c.entries pat, c.hits + 1, c.misses⟩)
+  | none =>
+    match compilePattern pat with
+    | .ok as => (.ok as, ⟨((pat, as) :: c.entries).take maxsize, c.hits, c.misses + 1⟩)
+    | .reError => (.reError, ⟨c.entries, c.hits, c.misses + 1⟩)
+    | .indexError => (.indexError, ⟨c.entries, c.hits, c.misses + 1⟩)
+
+/-- `qnmatch(name, pattern)` as the code runs it: through the cache -/
+def qnmatchCached (maxsize : Nat) (c : Lru) (name pat : List Char) : MatchRes × Lru :=
+  match lruCall maxsize c pat with
+  | (.ok as, c') => (.ok (matchA as name), c')
+  | (.reError, c') => (.reError, c')
+  | (.indexError, c') => (.indexError, c')
+
+/-- a history of `qnmatch(name, pattern)` calls -/
+def runLru (maxsize : Nat) : Lru → List (List Char × List Char) → List MatchRes × Lru
+  | c, [] => ([], c)
+  | c, (n, p) :: qs =>
+    let (r, c') := qnmatchCached maxsize c n p
+    let (rs, c'') := runLru maxsize c' qs
+    (r :: rs, c'')
+
 /-- the pattern translates and `re.compile` accepts the text -/
 def compilesPat (pat : List Char) : Bool :=
   match translate pat with
